@@ -25,6 +25,16 @@ try:
         E.k4_open(mir, rep)
     elif group == "e3_k2_argv_grammar":
         E.k2_parse_args(mir, rep, 4 if tier == "thorough" else 3)
+    elif group == "e3_k7_reader_loops":
+        X.load_enums(os.path.join(src, "src/input.rs"))
+        lib = X.Mir(os.path.join(os.path.dirname(mirf), "lib.mir"))
+        n = 4 if tier == "thorough" else 3
+        E.k7_loop(lib, rep, r"^msgpack::transcode$", "msgpack", n)
+        E.k7_loop(lib, rep, r"^json::transcode$", "json", n)
+        E.k7_loop(lib, rep, r"^transcode_reader$", "yaml_reader", n)
+    elif group == "e3_k8_from_reader":
+        lib = X.Mir(os.path.join(os.path.dirname(mirf), "lib.mir"))
+        E.k8_from_reader(lib, rep)
     elif group == "e3_main":
         E.k_main(mir, rep, 4 if tier == "thorough" else 3)
     else:
